@@ -1,5 +1,5 @@
 """Properties decided on the unit-level streams `dec`, `load`, `hex`, `sha1`: C06 C07 C08 C09 C10."""
-import os
+import os, re
 from . import common as C, gen as G, engine as E
 from .common import Rng, hx, log
 
@@ -259,6 +259,79 @@ def scale_cases(tier):
     ]
     return [("load " + hx(d), exp, tag) for d, exp, tag in out]
 
+def run_cli_lists(tier, seed):
+    """C10 through the command line: lists of torrent FILES, good and bad ones in every order, are loaded by the real
+    binary one file after the other; which files it reports as unloadable must be exactly those `Torrent::from_bytes`
+    refuses one by one (the per-file verdicts come from the `load` stream of this same check, which ties them to the
+    model). A loader front end that carries state from one file to the next shows up only here."""
+    import tempfile, shutil, subprocess, os
+    ok, out = C.harness_build(with_bin=True)
+    if not ok:
+        return []
+    n = 24 if tier == "quick" else 240
+    cases = []
+    base = tempfile.mkdtemp(prefix="tbl-", dir="/dev/shm")
+    try:
+        os.makedirs(os.path.join(base, "scan")); os.makedirs(os.path.join(base, "export"))
+        for i in range(n):
+            rng = Rng(seed, "cli-list", i)
+            docs = []
+            for _ in range(rng.range(2, 4)):
+                d, _tag = G.gen_meta(rng)
+                k = rng.below(5)
+                if k == 0:
+                    d = d[: max(1, len(d) // 2)]                       # a truncated download
+                elif k == 1:
+                    d = d[len(d) // 2:]                                # the second half of a file
+                elif k == 2:
+                    d = G.mutate_bytes(rng, d)
+                docs.append(d)
+            if i % 4 == 0:
+                good, _tag = G.gen_meta(rng)
+                docs = [good[: len(good) // 2], good[len(good) // 2:]] + docs      # two halves of one document, in order
+            verdicts = [l.partition(" | ")[2].split(" ", 1)[0] for l in C.run_impl(["load " + hx(d) for d in docs], 5.0, jobs=1)]
+            paths = []
+            for j, d in enumerate(docs):
+                pth = os.path.join(base, "l%d_%d.torrent" % (i, j))
+                open(pth, "wb").write(d); paths.append(pth)
+            try:
+                p = subprocess.run([C.REPO_BIN, "--export", os.path.join(base, "export"), "--scan", os.path.join(base, "scan"), "--torrents"] + paths,
+                                   stdout=subprocess.PIPE, stderr=subprocess.PIPE, timeout=60)
+                err = p.stderr.decode("utf-8", "replace"); outp = p.stdout.decode("utf-8", "replace"); rc = p.returncode
+            except subprocess.TimeoutExpired:
+                err, outp, rc = "", "", "timeout"
+            refused = [j for j, pth in enumerate(paths) if ("Unable to load torrent from path \"%s\"" % pth) in err]
+            expected = [j for j, v in enumerate(verdicts) if v != "ok"]
+            m = re.search(r"for (\d+) torrents", outp)
+            loaded = int(m.group(1)) if m else None
+            fails = []
+            if rc != 0 or "panicked" in err:
+                fails.append("c10-cli-crash")
+            if refused != expected or (loaded is not None and loaded != len(docs) - len(expected)):
+                fails.append("c10-cli-list")
+            line = "cli-list " + " ".join(hx(d) for d in docs)
+            obs = "refused %s loaded %s rc %s" % (refused, loaded, rc)
+            ans = ("agree prop-ok" if not fails else "DISAGREE PROPFAIL:" + ",".join(fails)) + " expected refused %s" % expected
+            cases.append(C.Case(line, obs, ans, "cli-list"))
+    finally:
+        shutil.rmtree(base, ignore_errors=True)
+    return cases
+
+def run_bigstr(tier):
+    """C08 beyond 4 GiB: one byte string of 2^32 bytes inside a list. The harness builds the input itself (no 8 GiB of
+    hex on a pipe) and reports verdict, value length and continuation offset; the expected answer is known by
+    construction (the model would need the 4 GiB too). Only inputs of at least 2^32 bytes tell a 32-bit length
+    accumulator from a 64-bit one."""
+    sizes = [(1 << 32)] if tier == "quick" else [(1 << 32) - 1, (1 << 32), (1 << 32) + 5]
+    cases = []
+    for n in sizes:
+        line = "bigstr %d" % n
+        o = C.run_impl([line], 120.0, jobs=1)[0].partition(" | ")[2]
+        exp = "ok %d %d" % (n, 1 + len(str(n)) + 1 + n + 3 + 1)
+        ans = "agree prop-ok bigstr" if o == exp else ("DISAGREE PROPFAIL:c08-rejects-canonical expected " + exp if o.startswith(("err", "panic", "abort", "timeout")) else "DISAGREE PROPFAIL:c08-spans expected " + exp)
+        cases.append(C.Case(line, o, ans, "bigstr"))
+    return cases
+
 def run_scale(tier, budget=3.0):
     sc = scale_cases(tier)
     obs = C.run_impl([l for l, _, _ in sc], budget, jobs=4)
@@ -299,6 +372,10 @@ def run(pid, tier, seed, replay=None):
     cases = C.differential([l for l, _ in lines], [t for _, t in lines])
     if pid == "C09" and not replay:
         cases += run_scale(tier)
+    if pid == "C10" and not replay:
+        cases += run_cli_lists(tier, seed)
+    if pid == "C08" and not replay:
+        cases += run_bigstr(tier)
     if replay:
         for c in cases:
             print("request : " + c.line[:2000]); print("impl    : " + c.obs[:2000]); print("model   : " + c.model[:2000])
